@@ -277,6 +277,19 @@ def _run(a, pid, spec, tier, seed, scratch, binfo, t_start, replay_ob):
         if rr.get('reproduced'):
             kf_lines.append('KNOWN-FINDING: property=%s %s [%s]' % (pid, f['what'], f['id']))
 
+    # ---- replays of repaired defects: a fixed entry suppresses nothing, it is re-checked
+    for f in known.get('fixed', []):
+        if f.get('property') != pid or not f.get('replay'):
+            continue
+        rp = f['replay']
+        rr = concrete_replay(rp['obligation'], rp['cex'], scratch, ignore_known=True)
+        if rr.get('reproduced'):
+            path = os.path.join(VERIF, 'replays', '%s-regressed-%s.json' % (pid, f.get('commit')))
+            os.makedirs(os.path.dirname(path), exist_ok=True)
+            json.dump({'property': pid, 'obligation': rp['obligation'], 'cex': rp['cex'], 'what': rr.get('what'),
+                       'detail': rr.get('detail')}, open(path, 'w'), indent=1)
+            violations.append((rp['obligation']['id'], path, 'repaired defect is back: ' + str(rr.get('what'))))
+
     for l in kf_lines:
         log(l)
     for i, d in inconclusive:
